@@ -99,9 +99,7 @@ func (i IRI) MarshalJSON() ([]byte, error) {
 		return nil, nil
 	}
 	b := make([]byte, 0)
-	JSONWrite(&b, '"')
-	JSONWriteS(&b, i.String())
-	JSONWrite(&b, '"')
+	JSONWriteStringValue(&b, i.String())
 	return b, nil
 }
 
@@ -216,7 +214,7 @@ func (i IRIs) MarshalJSON() ([]byte, error) {
 	for k, iri := range i {
 		writeCommaIfNotEmpty(k > 0)
 		JSONWrite(&b, '"')
-		JSONWriteS(&b, iri.String())
+		JSONWriteS(&b, escapeQuote(iri.String()))
 		JSONWrite(&b, '"')
 	}
 	JSONWrite(&b, ']')
